@@ -335,6 +335,9 @@ def b_int(eng, st, args, kwargs, node):
         ok = uf("str_is_int_literal", z3.StringSort(), z3.BoolSort())(v.term)
         if not eng.spec_mode and not st.branch(ok, "int(str)"):
             eng.raise_(ValueError, node)
+        if not eng.spec_mode:
+            # a string int() accepts is also accepted by float(), with the same value (overflow to inf not modelled)
+            st.assume(z3.And(_float_of_str_ok(v.term), _float_of_str(v.term) == f_fin(z3.ToReal(z3.StrToInt(v.term)))))
         return SV(KInt, z3.StrToInt(v.term))
     if k is KVal:
         V = val_sort()
